@@ -629,6 +629,16 @@ def install(ex):
         for v in enum_branch(ex, o, ["Some", "None"]):
             yield Ok(variant_field(ex, o, "Some", 0)) if v == "Some" else Err(e)
 
+    @model(r"^(std::option::)?Option::(ok_or_else)$", "Option::ok_or_else")
+    def opt_ok_or_else(ex, callee, args, rt):
+        o, f = args
+        for v in enum_branch(ex, o, ["Some", "None"]):
+            if v == "Some":
+                yield Ok(variant_field(ex, o, "Some", 0))
+            else:
+                for e in ex.call_closure(f, []):
+                    yield Err(e)
+
     @model(r"^(std::option::)?Option::(unwrap_or)$", "Option::unwrap_or")
     def opt_unwrap_or(ex, callee, args, rt):
         o, d = args
@@ -1200,7 +1210,46 @@ def install(ex):
             o = Adt("Ordering", ("Less", "Equal", "Greater")[i], [])
             yield Some(o) if partial else o
 
-    @model(r"^core::slice::<impl \[.*\]>::(sort_by|sort_unstable_by|sort_by_key|sort_unstable_by_key|sort|sort_unstable)$", "slice sort with a comparison closure: insertion sort over the (concrete-length) sequence, each comparison forked")
+    @model(r"^(core|std)::slice::<impl \[.*\]>::(sort_by_key|sort_unstable_by_key|sort_by_cached_key)$", "slice sort by a key closure (integer / boolean keys): stable insertion sort, each comparison forked")
+    def slice_sort_by_key(ex, callee, args, rt):
+        s_ = ex.deref(args[0])
+        keyf = args[1]
+        for n in seq_len_cases(ex, s_):
+            vals = [ex.seq_item(s_, j).v for j in range(n)]
+
+            def keys_of(j, acc):
+                if j == n:
+                    yield acc
+                    return
+                for k in ex.call_closure(keyf, [Ref(Cell(vals[j]))]):
+                    if is_z3(k) and z3.is_bool(k):
+                        k = z3.If(k, 1, 0)
+                    if not (is_z3(k) and z3.is_int(k)):
+                        raise Unsupported("sort key %r" % (k,))
+                    yield from keys_of(j + 1, acc + [k])
+
+            def insert_all(sorted_, rest):
+                if not rest:
+                    for j, (v, _) in enumerate(sorted_):
+                        tset(s_.items[j], "v", v)
+                    yield UNIT
+                    return
+                x = rest[0]
+
+                def place(pos):
+                    if pos == len(sorted_):
+                        yield from insert_all(sorted_ + [x], rest[1:])
+                        return
+                    for i in ex.branches([x[1] < sorted_[pos][1], x[1] >= sorted_[pos][1]]):
+                        if i == 0:
+                            yield from insert_all(sorted_[:pos] + [x] + sorted_[pos:], rest[1:])
+                        else:
+                            yield from place(pos + 1)
+                yield from place(0)
+            for ks in keys_of(0, []):
+                yield from insert_all([], list(zip(vals, ks)))
+
+    @model(r"^(core|std)::slice::<impl \[.*\]>::(sort_by|sort_unstable_by|sort|sort_unstable)$", "slice sort with a comparison closure: insertion sort over the (concrete-length) sequence, each comparison forked")
     def slice_sort(ex, callee, args, rt):
         s_ = ex.deref(args[0])
         if "by_key" in callee:
@@ -1260,7 +1309,7 @@ def install(ex):
                     yield from go(k + 1, kept if i == 0 else kept + [vals[k]])
             yield from go(0, [])
 
-    @model(r"^core::slice::<impl \[.*\]>::binary_search_by$", "slice::binary_search_by: std's algorithm on the concrete-length sequence (comparisons forked)")
+    @model(r"^(core|std)::slice::<impl \[.*\]>::binary_search_by$", "slice::binary_search_by: std's algorithm on the concrete-length sequence (comparisons forked)")
     def slice_bsearch(ex, callee, args, rt):
         s_ = ex.deref(args[0])
         f = args[1]
@@ -1756,6 +1805,52 @@ def install(ex):
                             yield from nxt(ex_, it_)
         yield IterObj("custom", next=nxt)
 
+    @model(r"as (itertools::)?Itertools>::flatten_ok(::<.*>)?$", "Itertools::flatten_ok: Ok(collection) is flattened into Ok(item)s, Err(e) is passed on")
+    def it_flatten_ok(ex, callee, args, rt):
+        inner = make_iter(ex, args[0], False)
+        state = IterObj("custom", next=None)
+        state.cur = None
+
+        def nxt(ex_, it_):
+            if state.cur is not None:
+                for o in iter_next(ex_, state.cur):
+                    if o.variant == "Some":
+                        yield Some(Ok(o.fields[0]))
+                    else:
+                        tset(state, "cur", None)
+                        yield from nxt(ex_, it_)
+                return
+            for o in iter_next(ex_, inner):
+                if o.variant == "None":
+                    yield NONE
+                    continue
+                r = o.fields[0]
+                for v in enum_branch(ex_, r, ["Ok", "Err"]):
+                    if v == "Err":
+                        yield Some(Err(variant_field(ex_, r, "Err", 0)))
+                    else:
+                        tset(state, "cur", make_iter(ex_, variant_field(ex_, r, "Ok", 0), False))
+                        yield from nxt(ex_, it_)
+        state.next = nxt
+        yield state
+
+    @model(r"as Iterator>::(max|min)$", "Iterator::max / min over integers")
+    def it_max(ex, callee, args, rt):
+        it = make_iter(ex, args[0], False)
+        want_max = callee.endswith("max")
+        for items in drain(ex, it):
+            if not items:
+                yield NONE
+                continue
+            vals = [ex.deref(v) if not is_z3(v) else v for v in items]
+            if not all(is_z3(v) and z3.is_int(v) for v in vals):
+                raise Unsupported("max/min of non-integers")
+            acc = vals[0]
+            for v in vals[1:]:
+                # std: max returns the last of equal maxima, min the first; irrelevant for integers
+                acc = z3.If(v >= acc, v, acc) if want_max else z3.If(v < acc, v, acc)
+            yield Some(z3.simplify(acc))
+
     @model(r"as Iterator>::partition$", "Iterator::partition into two Vecs")
     def it_partition(ex, callee, args, rt):
         it = make_iter(ex, args[0], False)
@@ -1846,6 +1941,24 @@ def install(ex):
                             else:
                                 yield Err(variant_field(ex, r, "Err", 0))
         yield from loop(init)
+
+    @model(r"as Iterator>::try_for_each(::<.*>)?$", "Iterator::try_for_each (Result-returning closure): stops at the first Err")
+    def it_try_for_each(ex, callee, args, rt):
+        it, f = args
+        it = make_iter(ex, it, False) if not isinstance(ex.deref(it), IterObj) else it
+
+        def loop():
+            for o in iter_next(ex, it):
+                if o.variant == "None":
+                    yield Ok(UNIT)
+                else:
+                    for r in ex.call_closure(f, [o.fields[0]]):
+                        for v in enum_branch(ex, r, ["Ok", "Err"]):
+                            if v == "Ok":
+                                yield from loop()
+                            else:
+                                yield Err(variant_field(ex, r, "Err", 0))
+        yield from loop()
 
     @model(r"as Iterator>::fold$", "Iterator::fold")
     def it_fold(ex, callee, args, rt):
